@@ -366,6 +366,28 @@ def inline_new_locals(fn, known, pure=frozenset()):
     return changed
 
 
+def drop_dead_new_locals(fn, known):
+    """Remove `name = <call-free expression>` for NEW names that are never read (left over when a flag was folded into branches)."""
+    loads = {n.id for n in ast.walk(fn) if isinstance(n, ast.Name) and isinstance(n.ctx, ast.Load)}
+    params = {a.arg for n in ast.walk(fn) if isinstance(n, ast.arguments) for a in n.posonlyargs + n.args + n.kwonlyargs}
+    dead = {n.id for n in ast.walk(fn) if isinstance(n, ast.Name) and isinstance(n.ctx, ast.Store)} - loads - set(known) - params
+    if not dead:
+        return False
+    changed = False
+    for node in ast.walk(fn):
+        for field in ("body", "orelse", "finalbody"):
+            b = getattr(node, field, None)
+            if isinstance(b, list):
+                keep = [st for st in b if not (isinstance(st, ast.Assign) and len(st.targets) == 1 and isinstance(st.targets[0], ast.Name) and st.targets[0].id in dead
+                                               and not any(isinstance(x, ast.Call) for x in ast.walk(st.value)))]
+                if len(keep) != len(b):
+                    changed = True
+                    b[:] = keep or [ast.Pass()]
+    if changed:
+        ast.fix_missing_locations(fn)
+    return changed
+
+
 PURE_CALLS = {"np.cos", "np.sin", "np.sqrt", "np.abs", "np.asarray", "np.array", "np.atleast_1d", "np.atleast_2d", "len", "int", "float", "bool", "np.size",
               "np.shape", "np.ndim", "np.exp", "np.log", "np.prod", "np.sum", "np.max", "np.min", "np.any", "np.all", "np.isclose", "np.arange", "np.ones",
               "np.zeros", "np.empty", "np.logical_or", "np.logical_and", "np.logical_not", "np.isnan", "isinstance", "tuple", "list", "range", "np.power",
@@ -521,7 +543,12 @@ def inline_new_helpers(tree, known_functions, rel):
                         out.append(ast.copy_location(ast.Assign(st.targets, rets[0].value), st))
                         changed = True
                     else:
-                        out.append(st)
+                        conv = _returns_to_assign(body, st.targets)
+                        if conv is not None:
+                            out.extend(conv)
+                            changed = True
+                        else:
+                            out.append(st)
             return out
 
         fn.body = expand_block(fn.body) or [ast.Pass()]
@@ -540,6 +567,36 @@ def inline_new_helpers(tree, known_functions, rel):
                             b.append(ast.Pass())
         ast.fix_missing_locations(tree)
     return changed
+
+
+def _returns_to_assign(stmts, targets):
+    """Body of a helper whose every path ends in `return <expr>` (no return inside loops/try/with) -> the same statements with each
+    return replaced by `targets = <expr>`; code following an if that returns on some paths is duplicated into the other paths."""
+    def has_ret(node):
+        return any(isinstance(n, ast.Return) for n in ast.walk(node))
+
+    def conv(seq):
+        out = []
+        for i, st in enumerate(seq):
+            if isinstance(st, ast.Return):
+                if st.value is None:
+                    return None
+                out.append(ast.Assign(copy.deepcopy(targets), st.value))
+                return out
+            if isinstance(st, ast.If) and has_ret(st):
+                rest = seq[i + 1:]
+                a = conv(st.body + copy.deepcopy(rest))
+                b = conv(st.orelse + copy.deepcopy(rest))
+                if a is None or b is None:
+                    return None
+                out.append(ast.If(st.test, a, b))
+                return out
+            if has_ret(st):
+                return None
+            out.append(st)
+        return None  # fell off the end without returning a value
+
+    return conv(list(stmts))
 
 
 def _replace_stmt(root, old, new):
@@ -705,6 +762,9 @@ def normalise(rel, tree, frozen, pure=frozenset(), sigs=None):
 
     guided_pass("a")
     ft = function_table(tree)
+    for q, fn in ft.items():
+        if q in known and drop_dead_new_locals(fn, set(known[q])):
+            info.setdefault("dead_locals", []).append(q)
     inl = False
     for q, fn in ft.items():
         k = set(known.get(q, [])) if q in known else None
@@ -715,6 +775,9 @@ def normalise(rel, tree, frozen, pure=frozenset(), sigs=None):
             inl = True
     if inl:
         guided_pass("b")
+        for q, fn in function_table(tree).items():
+            if q in known and drop_dead_new_locals(fn, set(known[q])):
+                info.setdefault("dead_locals", []).append(q)
     ft = function_table(tree)
     for q, fn in ft.items():
         if q not in known:
